@@ -105,6 +105,9 @@ func (m *ModelServer) ListPublications(_ context.Context, request *traits.ListPu
 	}
 
 	lastKey := pageToken.GetLastResourceName() // the key() of the last item we sent
+	if request.GetPageSize() < 0 {
+		return nil, status.Error(codes.InvalidArgument, "page_size must not be negative")
+	}
 	pageSize := capPageSize(int(request.GetPageSize()))
 
 	sortedItems := m.model.ListPublications(resource.WithReadMask(request.ReadMask))
